@@ -687,10 +687,12 @@ func filterLinenumbers(in *Value, param *Value) (*Value, *Error) {
 
 func filterLjust(in *Value, param *Value) (*Value, *Error) {
 	// (measured on the text that is written: Len() is 0 for numbers and other non-sequences)
-	times := param.Integer() - utf8.RuneCountInString(in.String())
-	if times < 0 {
-		times = 0
+	width, slen := param.Integer(), utf8.RuneCountInString(in.String())
+	if width <= slen {
+		// (also for the smallest widths an int holds, where width - slen would wrap around)
+		return AsValue(in.String()), nil
 	}
+	times := width - slen
 	if times > maxCharPadding {
 		return nil, &Error{
 			Sender:    "filter:ljust",
